@@ -39,7 +39,12 @@ FollowOf(c) ==
         vis == IF Dead(c) THEN {} ELSE Range(kept)
         wsum == SeqSum([i \in DOMAIN kept |-> WeightOf(c, kept[i] * 10)])
         kept2 == SelectSeq(kept, LAMBDA k : k # 2)
+        \* the second half: +500 ms, get(1) (and sync), +500 ms, contains 1 and 3.  One second after
+        \* the inserts a ttl of 0 s or 1 s has expired everything, a tti of 1 s everything but the
+        \* key that was read half a second ago; the other durations are 1000 years.
+        alive(k) == k \in vis /\ c.ttl \notin {0, 1} /\ c.tti # 0 /\ (c.tti = 1 => k = 1)
     IN [c1 |-> 1 \in vis, c2 |-> 2 \in vis, c3 |-> 3 \in vis,
+        g1 |-> IF 1 \in vis THEN 10 ELSE None, t1 |-> alive(1), t3 |-> alive(3),
         \* entries expired at once may or may not have been purged yet: counters are not predicted then
         ec |-> IF Dead(c) THEN None ELSE Len(kept), ws |-> IF Dead(c) THEN None ELSE wsum,
         c2after |-> FALSE, ecafter |-> IF Dead(c) THEN None ELSE Len(kept2)]
@@ -49,11 +54,11 @@ FollowOf(c) ==
 (* [obs] and Twin [which, panicked, obs] (an equivalent configuration).      *)
 
 PInit17 == [cfg |-> [cap |-> None, ttl |-> None, tti |-> None, weigher |-> FALSE], built |-> FALSE,
-            obs |-> <<>>, hasobs |-> FALSE]
+            obs |-> <<>>, hasobs |-> FALSE, policy |-> <<>>]
 
 PUpdate17(ps, e) ==
     CASE e.ev = "Build" -> [cfg |-> [cap |-> e.cap, ttl |-> e.ttl, tti |-> e.tti, weigher |-> e.weigher],
-                            built |-> ~e.panicked, obs |-> <<>>, hasobs |-> FALSE]
+                            built |-> ~e.panicked, obs |-> <<>>, hasobs |-> FALSE, policy |-> e.policy]
       [] e.ev = "Follow" -> [ps EXCEPT !.obs = e.obs, !.hasobs = TRUE]
       [] OTHER -> ps
 
@@ -68,7 +73,9 @@ Allowed_C17(ps, e) ==
            /\ ~e.obs.c2after
       [] e.ev = "Twin" ->
            \* initial_capacity has no observable effect; new(n) = builder().max_capacity(n).build()
+           \* and so has the route by which the hasher is given
            /\ e.panicked = ~ps.built
+           /\ (ps.built /\ "policy" \in DOMAIN e) => e.policy = ps.policy
            /\ (ps.built /\ ps.hasobs) => e.obs = ps.obs
       [] OTHER -> FALSE     \* Panic / Crash outside build()
 =============================================================================
